@@ -26,14 +26,14 @@ pub fn def() -> PropDef {
     PropDef {
         id: "C14",
         level: "model_checking",
-        rule: "explicit-state search over requests {open, open+sync, open+subscribe, close, set_sync on/off, insert, delete, get_exact, get_many, subscribe, unsubscribe, drop, import, insert_remote, sync_initial_message, get_state} x two documents against the real SyncHandle and its actor thread; every history is executed twice: awaiting every reply before the next request, and pipelined (all requests enqueued back-to-back in order, replies collected afterwards); every reply must equal the reference model's reply after exactly the earlier requests; after the history shutdown must hand back a store equal to the model; canonical state = (get_state of both documents, entries, listed namespaces); since the actor is a single consumer of one FIFO queue, client concurrency is observable only as an enqueue order, so all merges of two clients' request sequences are among the enumerated histories; non-trivial = histories with at least two opens or a close/drop after an open",
+        rule: "explicit-state search over requests {open, open+sync, open+subscribe, close, set_sync on/off, insert, delete, get_exact, get_many, subscribe, unsubscribe, drop, import, insert_remote, sync_initial_message, sync_process_message, get_state} x two documents against the real SyncHandle and its actor thread; every history is executed twice: awaiting every reply before the next request, and pipelined (all requests enqueued back-to-back in order, replies collected afterwards); every reply must equal the reference model's reply after exactly the earlier requests; after the history shutdown must hand back a store equal to the model; canonical state = (get_state of both documents, entries, listed namespaces); since the actor is a single consumer of one FIFO queue, client concurrency is observable only as an enqueue order, so all merges of two clients' request sequences are among the enumerated histories; non-trivial = histories with at least two opens or a close/drop after an open",
         assumptions: &[
             "async_channel is a linearizable FIFO and the actor a single consumer: concurrent clients reduce to enqueue orders",
             "drop_replica releases the caller's handle and then removes the document iff no handle remains (as the API layer defines it); the model mirrors that",
         ],
         bound: |t| match t {
-            Tier::Quick => json!({"depth": 4, "events": 33}),
-            Tier::Thorough => json!({"depth": 6, "events": 33}),
+            Tier::Quick => json!({"depth": 4, "events": 36}),
+            Tier::Thorough => json!({"depth": 6, "events": 36}),
         },
         run,
         replay,
@@ -59,6 +59,8 @@ pub enum Req {
     Import(u8),
     InsertRemote(u8),
     SyncInitial(u8),
+    /// process a (valid, entry-free) reconciliation message of a peer
+    SyncProcess(u8),
     GetState(u8),
 }
 
@@ -82,6 +84,7 @@ fn requests() -> Vec<Req> {
             Req::Import(d),
             Req::InsertRemote(d),
             Req::SyncInitial(d),
+            Req::SyncProcess(d),
             Req::GetState(d),
         ]);
     }
@@ -236,7 +239,7 @@ fn model_step(m: &mut [Doc; 2], r: Req, step: usize) -> String {
                 PutOutcome::Superseded => err,
             }
         }
-        Req::SyncInitial(d) => {
+        Req::SyncInitial(d) | Req::SyncProcess(d) => {
             let doc = &m[d as usize];
             if doc.open() && doc.sync {
                 ok
@@ -334,6 +337,17 @@ fn issue<'a>(
                 .insert_remote(ns_id(d), remote_entry(d), PEER, ContentStatus::Missing)
                 .await),
             Req::SyncInitial(d) => res(h.sync_initial_message(ns_id(d)).await.map(|_| ())),
+            Req::SyncProcess(d) => {
+                // the opening message of an empty peer replica: a fingerprint, no entries
+                let msg = {
+                    let mut peer = Sut::memory_with(&[d]);
+                    peer.sync_initial(ns_id(d)).expect("initial")
+                };
+                res(h
+                    .sync_process_message(ns_id(d), msg, PEER, Default::default())
+                    .await
+                    .map(|_| ()))
+            }
             Req::GetState(d) => match h.get_state(ns_id(d)).await {
                 Ok(s) => format!("Ok(sync={} subs={} handles={})", s.sync, s.subscribers, s.handles),
                 Err(_) => "Err".into(),
